@@ -94,7 +94,7 @@ def expected_frame(req, info, code, payload):
 
 
 # --------------------------------------------------------------------------- the lemma shared by all front-ends
-ALL_CLAUSES = ('no-exception', 'routing', 'absent', 'failure', 'response')
+ALL_CLAUSES = ('no-exception', 'routing', 'absent', 'failure', 'response', 'framer')
 
 
 def serve_unicast(fe, prop, clauses=ALL_CLAUSES, finding=None):
@@ -117,11 +117,18 @@ def serve_unicast(fe, prop, clauses=ALL_CLAUSES, finding=None):
         req, info = make_request(E, W, ['normal', 'exception', 'raises'])
         E.assume(L.Not(L.And(broadcast, info['uid'] == 0)))          # unicast case (broadcast: serve_broadcast)
         h, meth, args, addr = make_handler(E, W, fe, ctx, broadcast, ignore)
+        # execute is the framer's callback: requests pipelined behind this one in the same read are still in the framer's buffer while it runs,
+        # so whatever it does with this request (answer, exception, silence) it must leave the framer's receive state as it is
+        fr = E.get(h, 'framer')
+        E.set(fr, '_buffer', E.bytes('requests_still_buffered', 0, 64))
+        framer_before = E.clone(fr)
         out = E.attempt(lambda: E.method(h, meth, req, *args))
         if 'no-exception' in clauses:
             E.prove('%s:no-exception-escapes-execute' % prop, out.ok)
         if not out.ok:
             return
+        if 'framer' in clauses:
+            E.prove('%s:execute-leaves-the-framers-receive-state-alone' % prop, E.same_state(fr, framer_before, skip=('decoder', 'client')))
         prove0 = E.prove
 
         def prove(label, cond, **kw):
@@ -174,7 +181,7 @@ def serve_broadcast(fe, prop, nunits):
     (bounded in the number of hosted units - the loop over slaves() is unrolled - unit ids symbolic)"""
     def lemma(E):
         W = World()
-        ids = [E.int('unit%d' % k, 0, 248) for k in range(nunits)]
+        ids = [E.int('unit%d' % k, 0, 256) for k in range(nunits)]
         E.assume(L.And(*[ids[a] != ids[b] for a in range(nunits) for b in range(a + 1, nunits)]) if nunits > 1 else True)
         handles = [E.int('ctx%d' % k, 1, None) for k in range(nunits)]
         E.assume(L.And(*[handles[a] != handles[b] for a in range(nunits) for b in range(a + 1, nunits)]) if nunits > 1 else True)
